@@ -338,6 +338,11 @@ def oracle(line, out):
         if 'default' in meta and err: v.append(('C10', f'default rule present but compress raised {err}'))
     elif op in ('mdecompress', 'mdecompressd'):
         rs = p_rules(T); s = T.next()[2:]
+        if 'conformingd' in meta:
+            # one rule, a direction: the descriptors of that direction are the rule (RFC 8724 §7.1), the rest as C03 states
+            d = T.next(); r1 = dict(rs[0], fields=[f for f in rs[0]['fields'] if f['dir'] in (d, 'B')])
+            exp = spec.ref_decompress(s, r1)
+            if err or out[2:] != exp: v.append(('C03', f'decompressed {out} != reference {exp} (direction {d})'))
         if 'total' in meta:
             if err and err != 'RuleIDMatchError': v.append(('C20', f'decompress raised {err}')); v.append(('C15', f'decompress raised {err}'))
         if 'prefixfree' in meta:
@@ -564,6 +569,12 @@ def gen(props, tier, rng):
             if 'C03' in props:
                 s = spec.ref_compress(pkt, r)
                 yield f"schc decompress {rng.choice('LR')}:{s} {e_rule(r)} # conforming"
+                # … and a rule with Up / Dw alternatives (also in front of compute fields), decompressed for one direction
+                rd = _with_directions(rng, r, pkt, every_position=i)
+                for d in 'UD':
+                    rfs = [f for f in rd['fields'] if f['dir'] in (d, 'B')]
+                    sd = spec.ref_compress(dict(pkt, dir=d), rd, descriptors=rfs)
+                    yield f"schc mdecompressd {e_rules([rd])} {rng.choice('LR')}:{sd} {d} # conformingd"
             if 'C20' in props:
                 s = spec.ref_compress(pkt, r)
                 rs = _ruleset_with(rng, pkt, r)
@@ -715,6 +726,20 @@ def gen(props, tier, rng):
             if rng.random() < 0.2: s = s[:rng.randrange(0, len(s) + 1)]
             yield f"schc matchschc {e_rules(rules)} {rng.choice('LR')}:{s} # prefixfree"
             yield f"schc mdecompress {e_rules(rules)} {rng.choice('LR')}:{s} # prefixfree"
+        # rule IDs that are whole bytes (8, 16, 24 bits, alone or mixed with other widths) in front of packets of every length
+        # modulo 8, on either padding side: the head of the packet is then a byte-aligned slice of an unaligned Buffer
+        for _ in range(150 if q else 1500):
+            n = rng.randrange(1, 6)
+            w = rng.choice([8, 8, 16, 24])
+            codes = rulegen.prefix_free_codes(rng, n, fixed_width=w)
+            if rng.random() < 0.3 and n > 1:        # one ID shortened to a bit prefix no other ID shares, one lengthened
+                codes[0] = codes[0] + rulegen.rbits(rng, rng.randrange(1, 9))
+            rules = [{'id': abuf(c, rng.choice('LR')), 'nature': 'c', 'fields': []} for c in codes]
+            head = rng.choice(codes) if rng.random() < 0.8 else rulegen.rbits(rng, w)
+            s = head + rulegen.rbits(rng, rng.randrange(0, 40))
+            if rng.random() < 0.1: s = s[:rng.randrange(0, len(s) + 1)]
+            yield f"schc matchschc {e_rules(rules)} {rng.choice('LR')}:{s} # prefixfree"
+            yield f"schc mdecompress {e_rules(rules)} {rng.choice('LR')}:{s} # prefixfree"
     # ---------------------------------------------------------------- compute descriptors where the RFC formula lacks its inputs
     if props & {'C09', 'C20'}:
         # outside every property's quantifier (rule sets are well-formed there): model and implementation are only compared
@@ -726,8 +751,8 @@ def gen(props, tier, rng):
     # ---------------------------------------------------------------- checksums whose one's-complement sum folds twice
     if props & {'C01', 'C03', 'C09', 'C20'}:
         for i in range(12 if q else 120):
-            hdr4 = i % 3 == 2        # every third: the IPv4 HEADER checksum is the sum that folds twice
-            data, exp, pl = packets.build_double_carry_ipv4(rng) if hdr4 else packets.build_double_carry_udp(rng, v6=(i % 2 == 0))
+            hdr4 = i % 4 >= 2        # half of them on the IPv4 HEADER checksum: the sum that folds twice, and the checksum that is 0x0000
+            data, exp, pl = (packets.build_double_carry_ipv4(rng) if i % 4 == 2 else packets.build_zero_checksum_ipv4(rng)) if hdr4 else packets.build_double_carry_udp(rng, v6=(i % 2 == 0))
             pkt = rulegen.packet_from_fields(exp, packets.bits_of(pl), rng.choice('UD'))
             r = stack_rule(rng, pkt, compute_prob=0.3)
             for k, f in enumerate(r['fields']):
